@@ -284,7 +284,9 @@ def batch_plan(tier, seed):
         for mv in (33, 35, 13, 19, 41):
             eds = {33: (4,), 35: (3,), 13: (2,), 19: (4,), 41: (3,)}[mv]
             plan.append(('v%d plain' % mv, 'plain', dict(mversion=mv, editions=eds, subset_counts=(1, 2, 3), seeds=(0, 1, 2, 3, 4), slack=1)))
-            plan.append(('v%d struct' % mv, 'struct', dict(mversion=mv, editions=eds, subset_counts=(1, 2), seeds=(rot, (rot + 2) % 5), fmax=3 if mv == 33 else 2, slack=1)))
+            plan.append(('v%d struct' % mv, 'struct', dict(mversion=mv, editions=eds, subset_counts=(1, 2), seeds=(rot, (rot + 2) % 5), fmax=2, slack=1)))
+            if mv == 33:
+                plan.append(('v33 struct fmax3', 'struct', dict(mversion=mv, editions=eds, subset_counts=(1,), seeds=((rot + 1) % 5,), fmax=3, slack=0)))
             plan.append(('v%d bitmap' % mv, 'bitmap', dict(mversion=mv, editions=eds, subset_counts=(1, 2), seeds=(rot, (rot + 3) % 5), fmax=2, slack=1)))
     return plan
 
